@@ -63,7 +63,9 @@ class Env(object):
       self.settle()
 
   # ---- per-case reset
-  def begin_case(self, rng):
+  CASE_SLOT = 20000.0     # virtual seconds reserved per case index
+
+  def begin_case(self, rng, idx=None):
     self.events_total += len(self.events)
     self.events = []
     self.errors = []
@@ -75,6 +77,10 @@ class Env(object):
     self.loop.set_tie_mode(rng.choice(('fifo', 'fifo', 'lifo', 'random')),
                            rng.getrandbits(32))
     # sub-millisecond noise so deadlines are not aligned with the 10ms grid
+    if idx is not None:
+      # a case starts at an instant that depends on its index only (so a replay of
+      # one case sees the clock the full run saw), unless earlier cases overran
+      self.clock.now = max(self.clock.now, 1700000000.0 + idx * self.CASE_SLOT)
     self.clock.now += rng.random() * 0.0099 + 1e-5
     try:
       from scales.varz import VarzReceiver
